@@ -237,6 +237,40 @@ add("P 0 0 0 F! 0 0 1 %d x %s E" % (TY["I8"], insn("MOV", ["r:x", "i"])), kind="
 add("P 0 0 0 F! 0 0 1 %d x %s E" % (I64, insn("MOV", ["r:y", "i"])), kind="undeclared-name")
 add("%s R %d q %s E" % (PRE, D_, insn("DMOV", ["r:q", "d"])), kind="decl-use-local")
 add("%s R %d q %s E" % (PRE, D_, insn("MOV", ["r:q", "i"])), kind="decl-use-local-wrong")
+# ----- G6b: global variables tied to hard registers (MIR_new_global_func_reg), histories inside one function
+# and across functions: same/different name x same/different hard register x same/different type
+HARDS = ["rax", "rbx", "r12", "r15", "xmm0", "xmm12", "xmm15", "rsp", "rbp", "r10", "r11", "xmm8", "xmm9",
+         "st0", "st1", "nosuch", "RAX", "xmm16", "-"]
+GT = (I64, F_, D_, LD_, TY["I8"], TY["P"])
+for h in HARDS:
+    for t in GT:
+        add("%s G %d ga %s E" % (PRE, t, h), kind="global-decl", hard=h, ty=t)
+for n in (".lc3", "hr7", "ri", "a0"):
+    add("%s G %d %s rbx E" % (PRE, I64, n), kind="global-decl-name", name=n)
+GP = [("rbx", I64), ("r12", I64), ("xmm12", F_), ("xmm12", D_), ("xmm15", F_), ("xmm15", D_), ("xmm0", D_)]
+for ha, ta in GP:
+    for hb, tb in GP:
+        for nb in ("ga", "gb"):
+            add("%s G %d ga %s G %d %s %s E" % (PRE, ta, ha, tb, nb, hb), kind="global-pair", a=(ha, ta), b=(hb, tb), nb=nb)
+        # ... in two functions of one module (the tables are per function)
+        add("%s G %d ga %s Z F 0 0 0 G %d gb %s E" % (PRE, ta, ha, tb, hb), kind="global-pair-2funcs", a=(ha, ta), b=(hb, tb))
+        add("%s G %d ga %s Z F 0 0 0 G %d ga %s E" % (PRE, ta, ha, tb, hb), kind="global-pair-2funcs", a=(ha, ta), b=(hb, tb))
+for tys in ((F_, F_, F_), (F_, F_, D_), (F_, D_, F_), (D_, D_, D_), (D_, F_, F_)):
+    for hs in (("xmm12",) * 3, ("xmm12", "xmm15", "xmm12"), ("xmm12", "xmm12", "xmm15")):
+        add("%s %s E" % (PRE, " ".join("G %d g%d %s" % (tys[k], k, hs[k]) for k in range(3))),
+            kind="global-triple", tys=tys, hs=hs)
+for hs in (("rbx",) * 3, ("rbx", "r12", "rbx")):
+    add("%s %s E" % (PRE, " ".join("G %d g%d %s" % (I64, k, hs[k]) for k in range(3))), kind="global-triple", hs=hs)
+# locals and globals interleaved; the name of a sharing variable is not entered: using it by name fails,
+# declaring it again succeeds
+add("%s R %d x G %d x xmm12 E" % (PRE, F_, F_), kind="global-mix")
+add("%s G %d x xmm12 R %d x E" % (PRE, F_, F_), kind="global-mix")
+add("%s G %d ga xmm12 R %d y G %d gb xmm12 G %d gc xmm15 R %d z E" % (PRE, F_, I64, F_, D_, D_), kind="global-mix")
+add("%s G %d ga xmm12 G %d gb xmm12 R %d gb E" % (PRE, F_, F_, F_), kind="global-mix")
+add("%s G %d ga xmm12 G %d gb xmm12 %s E" % (PRE, F_, F_, insn("FMOV", ["r:ga", "f"])), kind="global-use")
+add("%s G %d ga xmm12 G %d gb xmm12 %s E" % (PRE, F_, F_, insn("FMOV", ["r:gb", "f"])), kind="global-use")
+add("%s G %d ga rbx %s E" % (PRE, I64, insn("ADD", ["r:ga", "r:ga", "i"])), kind="global-use")
+add("%s G %d ga xmm12 %s E" % (PRE, D_, insn("MOV", ["r:ga", "i"])), kind="global-use")
 # ----- G7: overflow branches ------------------------------------------------------------------
 PRODS = ["ADDO", "ADDOS", "SUBO", "SUBOS", "MULO", "MULOS", "UMULO", "UMULOS", "ADD", "MUL"]
 BETWEEN = {"none": [], "regmove": [insn("MOV", ["r.i", "r.i"])], "store": [insn("MOV", [mem(I64), "r.i"])],
@@ -330,14 +364,14 @@ def run_drv(args, cs):
 
 def nostage(v):
     f = (v or "missing").split()
-    return " ".join(f[:2]) if f[0] == "err" else f[0]
+    return " ".join(f[:2]) if f[0] == "err" else " ".join(f)     # `ok g=5,5` keeps the register identities
 
 
 def pretty(v):
     f = (v or "missing").split()
     if f[0] == "err" and len(f) >= 2 and f[1].isdigit():
         return "MIR_%s_error%s" % (ERR.get(int(f[1]), f[1]), (" @" + f[2]) if len(f) > 2 else "")
-    return "accepted" if f[0] == "ok" else v
+    return ("accepted" + (" " + " ".join(f[1:]) if len(f) > 1 else "")) if f[0] == "ok" else v
 
 
 def cell_sigs(cs):
